@@ -510,9 +510,12 @@ namespace verif
                     v = Verdict::fail("C15/timing/timeout-not-rejected", who + ": not rejected although its time-out expired on an established connection :: " + desc);
                     break;
                 }
-                if (r.timeout_ms && r.rejected && r.plan.b == NeverAnswer && r.settled_at - r.issued_at > r.timeout_ms / 1000.0 + 2.0)
+                // The time-out runs from the moment the request goes out on a connection ("expires on an
+                // established connection"), not from when it was issued: a request may wait in the overflow
+                // queue for seconds first.  Measured from the server's receipt of the request.
+                if (r.timeout_ms && r.rejected && r.plan.b == NeverAnswer && received && r.settled_at - g_srv.received_at[r.tag] > r.timeout_ms / 1000.0 + 2.0)
                 {
-                    v = Verdict::fail("C15/timing/timeout-late", who + ": rejected only after " + std::to_string(r.settled_at - r.issued_at).substr(0, 5) + " s :: " + desc);
+                    v = Verdict::fail("C15/timing/timeout-late", who + ": rejected only " + std::to_string(r.settled_at - g_srv.received_at[r.tag]).substr(0, 5) + " s after the server had received it :: " + desc);
                     break;
                 }
                 (void)all;
